@@ -7,11 +7,26 @@ import NemoVerif.Models.SerializeRefs
   Line protocol of C11 (Python twin: harness/impl/c11pv.py).
   PV:  null | true/false | {"i":n} | {"f":[m,e]} | {"s":str} | {"l":[..]} | {"t":[..]} | {"S":[..]} | {"q":[..]}
        | {"d":[[key,v]..]} | {"D":[cls,[[key,v]..]]} | {"R":[[key,v]..]} | {"st":v} | {"e":[cls,name]} | {"dt":iso}
-       | {"a":[uid,name,flow_uid|null,status,ctx,args,scope]} | {"p":1} | {"r":id} | {"c":1} | {"o":cls}
-  key: null | true/false | {"i":n} | {"s":str} | {"T":1}
+       | {"a":[uid,name,flow_uid|null,status,ctx,args,scope]} | {"p":1} | {"r":[pattern,flags]} | {"c":1} | {"o":cls}
+  key: null | true/false | {"i":n} | {"s":str} | {"T":[atom..]}   atom: null | true/false | {"i":n} | {"s":str}
 -/
 namespace NemoVerif.Drive.C11
 open Lean NemoVerif NemoVerif.Drive NemoVerif.Serialize
+
+def atomOfJson (j : Json) : Except String Atom :=
+  match j with
+  | .null => pure .none
+  | .bool b => pure (.bool b)
+  | _ =>
+    if let .ok v := j.getObjVal? "i" then do let n ← v.getInt?; pure (.int n)
+    else if let .ok v := j.getObjVal? "s" then do let s ← v.getStr?; pure (.str s)
+    else throw "bad atom"
+
+def atomToJson : Atom → Json
+  | .none => .null
+  | .bool b => .bool b
+  | .int i => Json.mkObj [("i", Json.num (JsonNumber.fromInt i))]
+  | .str s => Json.mkObj [("s", .str s)]
 
 def keyOfJson (j : Json) : Except String Key :=
   match j with
@@ -20,7 +35,8 @@ def keyOfJson (j : Json) : Except String Key :=
   | _ =>
     if let .ok v := j.getObjVal? "i" then do let n ← v.getInt?; pure (.int n)
     else if let .ok v := j.getObjVal? "s" then do let s ← v.getStr?; pure (.str s)
-    else if let .ok _ := j.getObjVal? "T" then pure .tuple
+    else if let .ok v := j.getObjVal? "T" then do
+      let a ← v.getArr?; pure (.tuple (← a.toList.mapM atomOfJson))
     else throw "bad key"
 
 def keyToJson : Key → Json
@@ -28,7 +44,7 @@ def keyToJson : Key → Json
   | .bool b => .bool b
   | .int i => Json.mkObj [("i", Json.num (JsonNumber.fromInt i))]
   | .str s => Json.mkObj [("s", .str s)]
-  | .tuple => Json.mkObj [("T", Json.num 1)]
+  | .tuple xs => Json.mkObj [("T", Json.arr (xs.map atomToJson).toArray)]
 
 partial def pvOfJson (j : Json) : Except String PV :=
   let kvs (v : Json) : Except String (List (Key × PV)) := do
@@ -68,7 +84,9 @@ partial def pvOfJson (j : Json) : Except String PV :=
         pure (.action (← a[0].getStr?) (← a[1].getStr?) fu (← a[3].getStr?) (← pvOfJson a[4]) (← pvOfJson a[5]) (← a[6].getInt?))
       else throw "bad a"
     else if let .ok _ := j.getObjVal? "p" then pure .partialFn
-    else if let .ok v := j.getObjVal? "r" then do pure (.regex (← v.getNat?))
+    else if let .ok v := j.getObjVal? "r" then do
+      let a ← v.getArr?
+      if h : a.size = 2 then do pure (.regex (← a[0].getStr?) (← a[1].getInt?)) else throw "bad r"
     else if let .ok _ := j.getObjVal? "c" then pure .cmp
     else if let .ok v := j.getObjVal? "o" then do pure (.other (← v.getStr?))
     else throw "bad pv object"
@@ -92,7 +110,7 @@ partial def pvToJson : PV → Json
   | .datetime s => Json.mkObj [("dt", .str s)]
   | .action u n fu st c a sc => Json.mkObj [("a", Json.arr #[.str u, .str n, (match fu with | some s => .str s | none => .null), .str st, pvToJson c, pvToJson a, Json.num (JsonNumber.fromInt sc)])]
   | .partialFn => Json.mkObj [("p", Json.num 1)]
-  | .regex n => Json.mkObj [("r", Json.num (JsonNumber.fromNat n))]
+  | .regex p f => Json.mkObj [("r", Json.arr #[.str p, Json.num (JsonNumber.fromInt f)])]
   | .cmp => Json.mkObj [("c", Json.num 1)]
   | .other c => Json.mkObj [("o", .str c)]
 
